@@ -261,6 +261,11 @@ def run(ctx):
                             x2 = x
                             if x2[0] == "bin" and x2[1] == "+":
                                 cat(x2[2]), cat(x2[3])
+                            elif x2[0] == "mut" and x2[1] == "extend" and len(x2[3]) == 1:
+                                cat(x2[2]), cat(x2[3][0])          # buf.extend(x) is buf += x
+                            elif x2[0] == "mut" and x2[1] == "append" and len(x2[3]) == 1:
+                                cat(x2[2])                         # buf.append(b) is buf += bytes([b])
+                                parts.append(("call", ("ext", "bytes"), (("list", (x2[3][0],)),), ()))
                             else:
                                 parts.append(x2)
                         cat(v)
@@ -279,6 +284,8 @@ def run(ctx):
                 x = strip(x) if x[0] != "call" else x
                 if x[0] == "bin" and x[1] == "+":
                     cat2(x[2]), cat2(x[3])
+                elif x[0] == "mut" and x[1] == "extend" and len(x[3]) == 1:
+                    cat2(x[2]), cat2(x[3][0])
                 else:
                     parts.append(x)
             if len(rets) == 1:
@@ -351,6 +358,7 @@ def run(ctx):
     # ---------------------------------------------------------------- C12.e CRC
     crcmod = prog.module("msmart.crc8")
     tbl = prog.fold_or_none(prog.module_assigns(crcmod).get("_CRC8_854_TABLE"), crcmod)
+    tbl = list(tbl) if isinstance(tbl, tuple) else tbl          # (a tuple holds the same table)
     ctx.ob("C12.e", "msmart.crc8", tbl == dallas_table(), "_CRC8_854_TABLE equals the table generated from the Dallas/Maxim polynomial (reflected 0x8C)",
            func="msmart.crc8", file=crcmod.rel, construct="_CRC8_854_TABLE", fail="_CRC8_854_TABLE differs from the CRC-8/MAXIM table")
     ctx.ob("C12.e", "msmart.crc8", tbl == lua_crc_table(lua), "_CRC8_854_TABLE equals crc8_854_table in the vendor Lua (l.869-888)", func="msmart.crc8",
